@@ -26,7 +26,25 @@ import (
 //@   ensures counters: sqlTx.updatedRows == old(sqlTx.updatedRows) && sqlTx.mutatedCatalog == old(sqlTx.mutatedCatalog)
 //@     && sqlTx.lastInsertedPKs == old(sqlTx.lastInsertedPKs) && sqlTx.firstInsertedPKs == old(sqlTx.firstInsertedPKs)
 //@   ensures store_tx: sqlTx.tx == old(sqlTx.tx)
-//@   assigns sqlTx
+//@   ensures recorded: has(sqlTx.savepoints, name) && sqlTx.savepoints[name] != nil && fresh(sqlTx.savepoints[name])
+//@   ensures rec_rows: sqlTx.savepoints[name].updatedRows == old(sqlTx.updatedRows)
+//@   ensures rec_ddl: sqlTx.savepoints[name].mutatedCatalog == old(sqlTx.mutatedCatalog)
+//@   ensures rec_last_fresh: fresh(sqlTx.savepoints[name].lastInsertedPKs) && sqlTx.savepoints[name].lastInsertedPKs != nil
+//@   ensures rec_first_fresh: fresh(sqlTx.savepoints[name].firstInsertedPKs) && sqlTx.savepoints[name].firstInsertedPKs != nil
+//@   ensures rec_last_sub: has(sqlTx.savepoints[name].lastInsertedPKs, spec_anyTable()) ==> (has(old(sqlTx.lastInsertedPKs), spec_anyTable())
+//@     && sqlTx.savepoints[name].lastInsertedPKs[spec_anyTable()] == old(sqlTx.lastInsertedPKs[spec_anyTable()]))
+//@   ensures rec_first_sub: has(sqlTx.savepoints[name].firstInsertedPKs, spec_anyTable()) ==> (has(old(sqlTx.firstInsertedPKs), spec_anyTable())
+//@     && sqlTx.savepoints[name].firstInsertedPKs[spec_anyTable()] == old(sqlTx.firstInsertedPKs[spec_anyTable()]))
+//@   loop 1 invariant last_sub: has(lastPKs, spec_anyTable()) ==> (has(old(sqlTx.lastInsertedPKs), spec_anyTable())
+//@     && lastPKs[spec_anyTable()] == old(sqlTx.lastInsertedPKs[spec_anyTable()]))
+//@   loop 2 invariant first_sub: has(firstPKs, spec_anyTable()) ==> (has(old(sqlTx.firstInsertedPKs), spec_anyTable())
+//@     && firstPKs[spec_anyTable()] == old(sqlTx.firstInsertedPKs[spec_anyTable()]))
+//@   loop 2 invariant last_kept: has(lastPKs, spec_anyTable()) ==> (has(old(sqlTx.lastInsertedPKs), spec_anyTable())
+//@     && lastPKs[spec_anyTable()] == old(sqlTx.lastInsertedPKs[spec_anyTable()]))
+//@   assigns sqlTx, sqlTx.savepoints
+
+// spec_anyTable: a rigid logical variable (one arbitrary table name): clauses that mention it hold for every key.
+func spec_anyTable() string { return spec_anyTable() }
 
 // `restored_*`: exactly the four fields recorded by Savepoint are restored (sp is the looked-up state; a map lookup
 // yields an ARBITRARY pointer for the engine, even one into *sqlTx, hence the guards sp != nil && !sameobj(sp, sqlTx),
@@ -43,12 +61,47 @@ import (
 //@   ensures restored_first: r0 == nil && sp != nil && !sameobj(sp, sqlTx) ==> sqlTx.firstInsertedPKs == sp.firstInsertedPKs
 //@   ensures err_noop: r0 != nil ==> unchanged(sqlTx)
 //@   ensures store_tx: sqlTx.tx == old(sqlTx.tx)
-//@   assigns sqlTx
+//@   ensures unknown_name: (r0 != nil) == (old(sqlTx.savepoints) == nil || !old(has(sqlTx.savepoints, name)))
+//@   ensures restored_rows_m: r0 == nil && old(sqlTx.savepoints[name]) != nil && !sameobj(old(sqlTx.savepoints[name]), sqlTx)
+//@     ==> sqlTx.updatedRows == old(sqlTx.savepoints[name].updatedRows) && sqlTx.mutatedCatalog == old(sqlTx.savepoints[name].mutatedCatalog)
+//@   ensures restored_maps_m: r0 == nil && old(sqlTx.savepoints[name]) != nil && !sameobj(old(sqlTx.savepoints[name]), sqlTx)
+//@     ==> sqlTx.lastInsertedPKs == old(sqlTx.savepoints[name].lastInsertedPKs) && sqlTx.firstInsertedPKs == old(sqlTx.savepoints[name].firstInsertedPKs)
+//@   ensures consumed: r0 == nil ==> !has(sqlTx.savepoints, name)
+//@   ensures err_map_kept: r0 != nil && old(sqlTx.savepoints) != nil ==> has(sqlTx.savepoints, spec_anyTable()) == old(has(sqlTx.savepoints, spec_anyTable()))
+//@   assigns sqlTx, sqlTx.savepoints
 
 //@ func (*SQLTx).ReleaseSavepoint
 //@   ensures nomap: old(sqlTx.savepoints) == nil ==> r0 != nil
 //@   ensures noop: unchanged(sqlTx)
-//@   assigns sqlTx
+//@   ensures unknown_name: (r0 != nil) == (old(sqlTx.savepoints) == nil || !old(has(sqlTx.savepoints, name)))
+//@   ensures released: r0 == nil ==> !has(sqlTx.savepoints, name)
+//@   ensures err_map_kept: r0 != nil && old(sqlTx.savepoints) != nil ==> has(sqlTx.savepoints, spec_anyTable()) == old(has(sqlTx.savepoints, spec_anyTable()))
+//@   assigns sqlTx, sqlTx.savepoints
+
+// Savepoint; arbitrary later changes of the counters; RollbackToSavepoint: the savepoint is found and the counters are
+// those at the savepoint (the SQL-level half of the property's savepoint clause; the write set is the known finding).
+func verif_savepoint_rollback_restores_counters(sqlTx *SQLTx, name string, rows int, ddl bool) {
+	verifAssume(sqlTx != nil)
+	r0, d0 := sqlTx.updatedRows, sqlTx.mutatedCatalog
+	sqlTx.Savepoint(name)
+	sqlTx.updatedRows = rows
+	sqlTx.mutatedCatalog = ddl
+	err := sqlTx.RollbackToSavepoint(name)
+	verifAssert("found", err == nil)
+	verifAssert("counters", sqlTx.updatedRows == r0 && sqlTx.mutatedCatalog == d0)
+	err = sqlTx.RollbackToSavepoint(name)
+	verifAssert("consumed", err != nil)
+}
+
+// Savepoint; ReleaseSavepoint: found, and a second release fails.
+func verif_savepoint_release_once(sqlTx *SQLTx, name string) {
+	verifAssume(sqlTx != nil)
+	sqlTx.Savepoint(name)
+	err := sqlTx.ReleaseSavepoint(name)
+	verifAssert("found", err == nil)
+	err = sqlTx.ReleaseSavepoint(name)
+	verifAssert("released", err != nil)
+}
 
 // The property: ROLLBACK TO SAVEPOINT undoes exactly the statements executed after the savepoint, i.e. the write set of
 // the store transaction is the one at the savepoint. Stated over what is expressible: the number of entries of the
